@@ -165,7 +165,102 @@ def main():
             r = ref_sdot(x0, y0, d, mnl)
             if abs(a - r) > 1e-10 * max(1.0, abs(r)):
                 fail('sdot', {'dims': d, 'mnl': mnl, 'got': a, 'want': r})
+    python_kernels(fail, vec)
     print('KERNEL-JSON ' + json.dumps(fails))
+
+
+def python_kernels(fail, vec):
+    """sgemv, snrm2, jdot, jnrm2 of cvxopt.misc against their definitions"""
+    from cvxopt import misc
+    d = {'l': 1, 'q': [2], 's': [3, 2]}
+    N = 1 + 2 + 9 + 4
+    n = 3
+
+    def symvec(off, tot):
+        v = vec(tot)
+        o = off + 3
+        for k in d['s']:
+            for c in range(k):
+                for r in range(c + 1, k):
+                    v[o + c + r * k] = v[o + r + c * k]
+            o += k * k
+        return v
+    for trans in ('N', 'T'):
+        for ox, oy in ((0, 0), (2, 5), (5, 2)):
+            for alpha, beta in ((1.0, 0.0), (-2.0, 0.5), (0.0, 1.5)):
+                A0 = vec(N * n)
+                A = matrix(A0, (N, n))
+                if trans == 'N':
+                    x0, y0 = vec(ox + n + 2), vec(oy + N + 20)
+                else:
+                    x0, y0 = symvec(ox, ox + N + 20), vec(oy + n + 2)
+                x, y = matrix(x0), matrix(y0)
+                misc.sgemv(A, x, y, d, trans=trans, alpha=alpha, beta=beta,
+                           offsetx=ox, offsety=oy)
+                ry = list(y0)
+                if trans == 'N':
+                    for i in range(N):
+                        ry[oy + i] = beta * y0[oy + i] + alpha * sum(
+                            A0[i + N * j] * x0[ox + j] for j in range(n))
+                else:
+                    # columns of A and x are in S with 'L' storage: only the
+                    # lower triangles of the 's' blocks are referenced, the
+                    # off-diagonal entries count twice
+                    wgt = [1.0] * N
+                    o = 3
+                    for k in d['s']:
+                        for c in range(k):
+                            for r in range(k):
+                                wgt[o + r + c * k] = 0.0 if r < c else (
+                                    1.0 if r == c else 2.0)
+                        o += k * k
+                    for j in range(n):
+                        ry[oy + j] = beta * y0[oy + j] + alpha * sum(
+                            wgt[i] * A0[i + N * j] * x0[ox + i]
+                            for i in range(N))
+                if trans == 'T':
+                    # x is restored on the stored (lower) triangles; its
+                    # strict upper triangles are not part of the 'L' storage
+                    cmpi = [i for i in range(len(x0)) if not (
+                        ox <= i < ox + N and wgt[i - ox] == 0.0)]
+                else:
+                    cmpi = range(len(x0))
+                okx = all(abs(x[i] - x0[i]) <= 1e-12 * max(1, abs(x0[i]))
+                          for i in cmpi)
+                oky = all(abs(a - b) <= 1e-9 * max(1, abs(b))
+                          for a, b in zip(list(y), ry))
+                if not (okx and oky):
+                    fail('sgemv', {'trans': trans, 'offsetx': ox,
+                                   'offsety': oy, 'alpha': alpha,
+                                   'beta': beta, 'x restored': okx,
+                                   'y as defined': oky})
+    for ox, oy, nn in ((0, 0, None), (1, 2, 4), (3, 0, 1)):
+        x0, y0 = vec(8), vec(8)
+        x, y = matrix(x0), matrix(y0)
+        m = nn if nn is not None else 8
+        want = x0[ox] * y0[oy] - sum(x0[ox + 1 + t] * y0[oy + 1 + t]
+                                     for t in range(m - 1))
+        got = misc.jdot(x, y, n=nn, offsetx=ox, offsety=oy)
+        if abs(got - want) > 1e-10 * max(1, abs(want)):
+            fail('jdot', {'offsetx': ox, 'offsety': oy, 'n': nn,
+                          'got': got, 'want': want})
+        xs = list(x0)
+        xs[ox] = 50.0
+        m = nn if nn is not None else 8 - 0
+        if nn is None and ox:
+            continue
+        nr = math.sqrt(sum(xs[ox + 1 + t] ** 2 for t in range(m - 1)))
+        want = math.sqrt(xs[ox] - nr) * math.sqrt(xs[ox] + nr)
+        got = misc.jnrm2(matrix(xs), n=nn, offset=ox)
+        if abs(got - want) > 1e-10 * max(1, abs(want)):
+            fail('jnrm2', {'offset': ox, 'n': nn, 'got': got,
+                           'want': want})
+    for mnl in (0, 2):
+        x0 = vec(mnl + N)
+        got = misc.snrm2(matrix(x0), d, mnl)
+        want = math.sqrt(ref_sdot(x0, x0, d, mnl))
+        if abs(got - want) > 1e-10 * max(1, abs(want)):
+            fail('snrm2', {'mnl': mnl, 'got': got, 'want': want})
 
 
 main()
